@@ -206,6 +206,54 @@ fn generators<X: Sx>(ctx: &Ctx, n: usize, which: usize) {
     }
 }
 
+/// the public helper that assembles the blind-interface generator list: for every api id (incl. None) the
+/// two parts must be the reference's sets, disjoint and duplicate-free, and None must behave as the empty id
+fn prepare_params<X: Sx>(ctx: &Ctx, idx: u64) {
+    use crate::refimpl as rf;
+    use zkryptium::bbsplus::blind::prepare_parameters;
+    let mut r = ctx.rng("c11p", idx);
+    let apis: Vec<(&str, Option<Vec<u8>>)> = vec![
+        ("none", None),
+        ("empty", Some(vec![])),
+        ("api", Some(X::ID.api_id())),
+        ("blind", Some(X::ID.blind_api_id())),
+        ("custom", Some(b"MY_APP_V1_".to_vec())),
+    ];
+    for (an, api) in &apis {
+        for (l, m) in [(0usize, 0usize), (1, 0), (0, 1), (2, 3), (5, 5), (9, 2)] {
+            let case = format!("{}/prepare_parameters/{}/L{}M{}", name::<X>(), an, l, m);
+            ctx.distinct(&case);
+            let msgs = gen_messages(&mut r, l, 0);
+            let cm = gen_messages(&mut r, m, 0);
+            let bf = BlindFactor::random();
+            let got = ctx.call("prepare_parameters", &case, None, || prepare_parameters::<X::CS>(Some(&msgs), Some(&cm), l + 1, m + 1, Some(&bf), api.as_deref()));
+            let Some((scalars, gens)) = got.value else {
+                ctx.violation("C11:prepare_parameters-failed", json!({"case":case,"outcome":got.outcome.short()}));
+                continue;
+            };
+            let a = api.clone().unwrap_or_default();
+            let mut want = rf::create_generators(X::ID, l + 1, &a);
+            want.extend(rf::create_generators(X::ID, m + 1, &[b"BLIND_".as_slice(), &a].concat()));
+            if gens.values != want {
+                ctx.violation("C11:prepare_parameters-generators-differ-from-reference", json!({"case":case}));
+            }
+            let mut seen = std::collections::HashSet::new();
+            for g in &gens.values {
+                if !seen.insert(g.to_affine().to_compressed()) {
+                    ctx.violation("C11:prepare_parameters-duplicate-generator", json!({"case":case}));
+                    break;
+                }
+            }
+            let mut ws = rf::messages_to_scalars(X::ID, &msgs, &a).unwrap();
+            ws.push(rf::octets_to_scalar(&bf.to_bytes()).unwrap());
+            ws.extend(rf::messages_to_scalars(X::ID, &cm, &a).unwrap());
+            if scalars.iter().map(|s| s.value).collect::<Vec<_>>() != ws {
+                ctx.violation("C11:prepare_parameters-scalars-differ-from-reference", json!({"case":case}));
+            }
+        }
+    }
+}
+
 pub fn scenarios(ctx: &Ctx) -> Vec<Scenario> {
     let mut v = Vec::new();
     let lm: &[(usize, usize)] = ctx.t(&[(0, 0), (1, 0), (2, 1), (3, 3), (5, 2)][..], &[(0, 0), (1, 0), (0, 1), (2, 1), (3, 3), (5, 2), (8, 4), (4, 8)][..]);
@@ -216,6 +264,8 @@ pub fn scenarios(ctx: &Ctx) -> Vec<Scenario> {
             v.push(scenario(format!("replay/shake->sha/L{l}M{m}"), move |c| replays::<Shake, Sha>(c, i + 10, l, m)));
         }
     }
+    v.push(scenario("prepare_parameters/sha", |c| prepare_params::<Sha>(c, 7000)));
+    v.push(scenario("prepare_parameters/shake", |c| prepare_params::<Shake>(c, 7001)));
     let n = ctx.t(256usize, 1024usize);
     for which in 0..7usize {
         v.push(scenario(format!("generators/sha/{which}"), move |c| generators::<Sha>(c, n, which)));
